@@ -163,6 +163,28 @@ pub fn check_traj(c: &TrajCase, ctx: &mut Ctx) -> CheckResult {
     } else if saw_dual {
         ctx.label("dual-scaling-only");
     }
+    // Oracle C: an InsufficientProgress verdict reached by the termination test (final record at the count of the last
+    // loop head) restores the previous iterate: what is returned must be, bit for bit, the loop-head iterate before the
+    // step that was found to be a dud - i.e. exactly what a run limited to one iteration less stops at - and not the
+    // degraded iterate itself
+    if full.status == SolverStatus::InsufficientProgress && heads.len() >= 2 {
+        if let Some(fin) = full.trace.iter().rev().find(|r| r.phase == 1) {
+            let last = heads[heads.len() - 1];
+            let prev = heads[heads.len() - 2];
+            let same = |a: &trace::IterRecord, b: &trace::IterRecord| bits(&a.x, &b.x) && bits(&a.s, &b.s) && bits(&a.z, &b.z) && a.tau.to_bits() == b.tau.to_bits() && a.kappa.to_bits() == b.kappa.to_bits();
+            if fin.iter == last.iter && last.iter == prev.iter + 1 && !same(last, prev) {
+                ensure!(
+                    same(fin, prev),
+                    "InsufficientProgress declared at iteration {}: the returned iterate is not the restored iterate {} of the same run (it {} the degraded iterate {})",
+                    last.iter,
+                    prev.iter,
+                    if same(fin, last) { "is" } else { "is not even" },
+                    last.iter
+                );
+                ctx.label("rollback-restores-previous-iterate");
+            }
+        }
+    }
     // Oracle B': the same holds when ONE solver object is re-used with a growing budget (state left by an
     // earlier solve must not leak into the next one)
     {
@@ -268,7 +290,7 @@ pub fn check_traj(c: &TrajCase, ctx: &mut Ctx) -> CheckResult {
 }
 
 pub fn run(run: &mut PropRun) {
-    run.rule = "proptest-generated feasible / infeasible problems over all cone mixtures x settings (max_step_fraction, linesearch_backtrack_step, min_switch_step_length, min_terminate_step_length, equilibration, regularisation, refinement, backend). Oracle A (invariant over the observed history): tau, kappa > 0, s in K and z in K* at every loop head by the oracle's own membership functions (margin >= -64 eps), every accepted step in (0,1]. Oracle B: for k = 0..min(K,10) a fresh solver with max_iter = k ends bit-identically at the k-th iterate of the long run and returns exactly its un-scaling. non-trivial = long run with >= 3 iterations".into();
+    run.rule = "proptest-generated feasible / infeasible problems over all cone mixtures x settings (max_step_fraction, linesearch_backtrack_step, min_switch_step_length, min_terminate_step_length, equilibration, regularisation, refinement, backend). Oracle A (invariant over the observed history): tau, kappa > 0, s in K and z in K* at every loop head by the oracle's own membership functions (margin >= -64 eps), every accepted step in (0,1]. Oracle B: for k = 0..min(K,10) a fresh solver with max_iter = k ends bit-identically at the k-th iterate of the long run and returns exactly its un-scaling. Oracle C: an InsufficientProgress verdict of the termination test returns bit-identically the loop-head iterate before the rejected step. non-trivial = long run with >= 3 iterations".into();
     run.assumptions = vec![
         "presolve disabled so that internal coordinates have the user's dimensions".into(),
         "iterates are read through the per-iteration observer hook (internal, equilibrated coordinates; E is constant inside non-scalar cones so membership is unaffected)".into(),
